@@ -43,7 +43,7 @@ Lemma invoke_same id allow_re reentrant acts : Forall restores acts ->
   forall s, same s (snd (invoke run id allow_re reentrant acts s)).
 Proof.
   intros Hf s. unfold invoke.
-  pose proof (aloop_same acts Hf {| fA := fA s; fR := fR s; depth := S (depth s);
+  pose proof (aloop_same acts Hf {| fA := fA s; fR := fR s; depth := S (depth s); in_main := in_main s;
                                    log := log s ++ [(depth s, fR s || allow_re && reentrant, id)] |}) as Hs.
   destruct (aloop_of run acts _) as [r so]. destruct Hs as (H1 & H2 & _). cbn in *. repeat split; auto.
 Qed.
@@ -69,7 +69,8 @@ Lemma tloop_same is_re re_only ts : Forall tracer_restores ts ->
   forall s, same s (snd (tloop_of run is_re re_only ts s)).
 Proof.
   induction 1 as [|t ts Ht _ IH]; intros s; cbn; [apply same_refl|].
-  destruct t as [[| allow_re propagate hd | | |] hs]; auto.
+  destruct t as [[| allow_re propagate hd multi | | |] hs]; auto.
+  destruct (negb (in_main s) && negb multi); auto.
   destruct (is_re && negb allow_re && negb (fR s)); auto. destruct hd; auto.
   pose proof (hloop_same re_only allow_re propagate hs Ht s) as Hs.
   destruct (hloop_of run re_only allow_re propagate hs s) as [res s']. cbn in Hs.
@@ -144,7 +145,7 @@ Lemma invoke_J origR d is_re id allow_re reentrant acts : Forall depth_ok acts -
   forall s, J origR d s -> J origR d (snd (invoke run id allow_re reentrant acts s)).
 Proof.
   intros Hf Hre Hg1 Hg2 s (HA & HR & HD & HL). unfold invoke.
-  set (s_in := {| fA := fA s; fR := fR s; depth := S (depth s); log := log s ++ [(depth s, fR s || allow_re && reentrant, id)] |}).
+  set (s_in := {| fA := fA s; fR := fR s; depth := S (depth s); in_main := in_main s; log := log s ++ [(depth s, fR s || allow_re && reentrant, id)] |}).
   assert (Hin : good_log s_in).
   { unfold good_log, s_in. cbn. apply Forall_app. split; auto. constructor; [|constructor]. cbn. intros Hd1.
     rewrite HD in Hd1. specialize (Hre Hd1). subst is_re. rewrite HR. cbn in *.
@@ -173,8 +174,9 @@ Lemma tloop_J origR d is_re ts : Forall tracer_ok ts -> (d >= 1 -> is_re = true)
   forall s, J origR d s -> J origR d (snd (tloop_of run is_re (is_re && negb origR) ts s)).
 Proof.
   intros Hf Hre. induction Hf as [|t ts Ht _ IH]; intros s HJ; cbn; auto.
-  destruct t as [[| allow_re propagate hd | | |] hs]; auto.
+  destruct t as [[| allow_re propagate hd multi | | |] hs]; auto.
   destruct HJ as (HA & HR & HD & HL). rewrite HR.
+  destruct (negb (in_main s) && negb multi); [apply IH; repeat split; auto|].
   destruct (is_re && negb allow_re && negb origR) eqn:Eg; [apply IH; repeat split; auto|].
   destruct hd; [apply IH; repeat split; auto|].
   pose proof (hloop_J origR d is_re allow_re propagate hs Ht Hre Eg s (conj HA (conj HR (conj HD HL)))) as HJ'.
@@ -236,6 +238,6 @@ Qed.
 Fixpoint no_optin (n : node) : bool :=
   match n with
   | Node t cs =>
-      match t with TgRegion => false | TgTracer a _ _ => negb a | TgHandler _ r _ _ => negb r | _ => true end
+      match t with TgRegion => false | TgTracer a _ _ _ => negb a | TgHandler _ r _ _ => negb r | _ => true end
       && (fix go (l : list node) : bool := match l with [] => true | x :: l' => no_optin x && go l' end) cs
   end.
